@@ -518,6 +518,27 @@ pub fn run(case: &Case) -> Outcome {
             }
         }
     }
+    // mpmc, C07 "first drains the values still queued and then gets Disconnected": the
+    // permits are anonymous and a value can be on its way to a receiver whose call is in
+    // progress, so the single consumer rule above does not carry over. But when every send
+    // and every sender's drop had returned before a call began, no permit arrives during
+    // that call: if it answers Disconnected, every queued value is matched by a permit that
+    // somebody holds in a call that began before the answer, and those calls pop all of
+    // them before any later call can get a permit. A value that is taken only by a call
+    // that began after the answer (or never) was queued and unclaimed during the whole call.
+    // (not with timed out or cancelled receivers: their permit is in transit for a while)
+    let timed_out = obs.iter().any(|o| o.op == R_TIMED && o.res == EMPTY);
+    if kind == 2 && cancelled_rx == 0 && !timed_out {
+        let quiet_from = obs.iter().filter(|o| o.op == S_SEND || o.op == S_DROPALL || o.op == S_DROP1 || o.op == S_CLONE).map(|o| o.r).max().unwrap_or(0);
+        let all_dropped = last_tx_drop_call.is_some();
+        for o in obs.iter().filter(|o| is_recv(o) && o.res == DISC && all_dropped && quiet_from < o.c) {
+            for id in 0..total {
+                if sent_ok[id] && !matches!(recv_by[id], Some((_, c)) if c < o.r) {
+                    out.fail("disconnected-before-drained", format!("receiver {} op {} id {id}", o.actor, opname(o.op)));
+                }
+            }
+        }
+    }
     // drain mode: nobody dropped a receiver early, so everything sent must have been received
     let early_rx_drop = case.actors.iter().any(|a| a.role == 1 && a.ops.iter().any(|o| o.0 == R_DROP));
     if drain && !early_rx_drop && cancelled_rx == 0 {
